@@ -3,6 +3,7 @@ import RsslVerif.Gen.EvalSites
 import RsslVerif.Lemmas.ConstEvalFloatRound
 import RsslVerif.Lemmas.ConstPosEnum
 import RsslVerif.Lemmas.ConstBinop
+import RsslVerif.Lemmas.InstCache
 /-!
 # C13 — compile-time constant evaluation matches run-time semantics
 
@@ -538,5 +539,93 @@ theorem binop_common_type_literal_pairs (op : BinOp) (t : Target)
   commonTy_literal_bool op (binOp_mem_all op) t h
 
 end CommonType
+
+/-! ## Several instantiations of one template in one compilation
+
+A template value argument is evaluated once per use (`template_argument_value`); what the *body* of the instantiation
+sees is decided by the cache of instantiations: a use is bound to an instantiation found by `find_instantiation` /
+the struct template map, and only built when none is found. -/
+section Instantiation
+open RsslVerif.Gen.InstTable RsslVerif.Model.InstCache RsslVerif.Model.ConstPos RsslVerif.Lemmas.InstCache
+
+/-- **The lookup is exact.** For every history of instantiations (any cache contents, in any order), with the comparison
+    *extracted from the source of `find_instantiation`*: the search returns an entry only if it is registered, belongs to
+    the requested template and its recorded argument list **equals** the requested one — same length, and argument by
+    argument the same type or the same constant, kind and value (`-1 ≠ -2`, `3 ≠ 3u`, `1 ≠ true`, `E0B ≠ 1`);
+    and it does return one whenever such an entry exists. -/
+theorem instantiation_lookup_is_exact {α : Type} (cache : List (Entry α)) (parent : Nat) (key : List Arg) :
+    (∀ e, find fnKeyMode parent key cache = some e → e ∈ cache ∧ e.parent = parent ∧ e.key = key) ∧
+    ((∃ e ∈ cache, e.parent = parent ∧ e.key = key) → (find fnKeyMode parent key cache).isSome = true) := by
+  rw [fnKeyMode_exact]
+  exact ⟨fun e h => find_sound parent key cache e h, find_complete parent key cache⟩
+
+/-- **Each instantiation sees its own argument.** Whatever a template body computes from its arguments (`build`: array
+    sizes, case labels, initialisers, the arguments handed on to further templates ...), for every sequence of uses of any
+    templates with any arguments — repeated, interleaved, in any order — starting from any cache whose entries were built
+    from their own recorded arguments (the empty one in particular): every use is bound to exactly what building the
+    template from *that use's* argument list gives, independent of which other instantiations exist or came first. -/
+theorem each_instantiation_sees_its_own_argument {α : Type} (build : Nat → List Arg → α)
+    (uses : List (Nat × List Arg)) (cache : List (Entry α)) (hinv : ∀ e ∈ cache, e.val = build e.parent e.key) :
+    run fnKeyMode build cache uses = uses.map (fun pk => build pk.1 pk.2) := by
+  rw [fnKeyMode_exact]
+  exact run_exact build uses cache hinv
+
+/-- ... down to the argument *expressions*: uses `tf<e>()` of templates with one value parameter, each argument accepted by
+    `parse_and_evaluate_constant_expression` with the constant `c`: the use is bound to the instantiation built from the
+    value the specification gives `e` (kind included). -/
+theorem each_instantiation_sees_the_value_of_its_argument_expression {α : Type} (build : Nat → List Arg → α)
+    (uses : List (Nat × Expr × Constant))
+    (hacc : ∀ u ∈ uses, wfE u.2.1 = true ∧ templateSite (eval u.2.1) = .stored u.2.2) :
+    run fnKeyMode build [] (uses.map (fun u => (u.1, [Arg.const u.2.2]))) = uses.map (fun u => build u.1 [Arg.const u.2.2]) ∧
+    ∀ u ∈ uses, RsslVerif.Spec.HlslConst.eval u.2.1 = some u.2.2 := by
+  refine ⟨?_, fun u hu => (template_argument_value u.2.1 (hacc u hu).1 u.2.2 (hacc u hu).2).1⟩
+  rw [each_instantiation_sees_its_own_argument build _ [] (by intro e he; cases he), List.map_map]
+  rfl
+
+/-- non-vacuity: `tf<-1>(); tf<-2>(); tf<(int)-1>(); tf<-1>(); tf<1 - 3>()` — three instantiations are built (`-1`, `-2`,
+    `(int)-1`), the fourth use finds the first, the fifth (a constant expression folding to `-2`) the second -/
+example :
+    let neg := fun (a b : Int) => eval (.op .Subtract (.cons (.lit (.intLit a)) (.cons (.lit (.intLit b)) .nil)))
+    templateSite (neg 1 3) = .stored (.intLit (-2)) ∧
+    run fnKeyMode (fun _ k => k) [] [(0, [.const (.intLit (-1))]), (0, [.const (.intLit (-2))]), (0, [.const (.int32 (-1))]),
+      (0, [.const (.intLit (-1))]), (0, [.const (.intLit (-2))])] =
+      [[.const (.intLit (-1))], [.const (.intLit (-2))], [.const (.int32 (-1))], [.const (.intLit (-1))], [.const (.intLit (-2))]] ∧
+    (find fnKeyMode 0 [.const (.intLit (-2))]
+      [(⟨0, [.const (.intLit (-1))], 10⟩ : Entry Nat), ⟨1, [.const (.intLit (-2))], 11⟩, ⟨0, [.const (.intLit (-2))], 12⟩]).map (·.val) = some 12 := by
+  decide
+
+/-- **Struct templates** (`ensure_struct_template`: a map keyed by the argument list, asked with the provided arguments
+    and with the list completed by the defaults): for every sequence of uses `TS<args>` with at most as many arguments as
+    the template has parameters, every use is bound to the struct built from *its own* arguments completed by the
+    defaults. -/
+theorem struct_instantiation_sees_its_own_arguments {α : Type} (build : List Arg → α) (defaults : List Arg)
+    (uses : List (List Arg)) (hlen : ∀ k ∈ uses, k.length ≤ defaults.length) :
+    structMapKeyedByArgs = true ∧
+    runStruct build defaults [] uses = uses.map (fun k => build (complete defaults k)) :=
+  ⟨argEq_is_derived.2, runStruct_exact build defaults uses [] hlen (by intro e he; cases he)⟩
+
+/-- non-vacuity: `template<int N = 7> struct TS`: `TS<-1>`, `TS<>`, `TS<-2>`, `TS<7>`, `TS<-1>` -/
+example : runStruct (fun k => k) [.const (.intLit 7)] []
+    [[.const (.intLit (-1))], [], [.const (.intLit (-2))], [.const (.intLit 7)], [.const (.intLit (-1))]] =
+    [[.const (.intLit (-1))], [.const (.intLit 7)], [.const (.intLit (-2))], [.const (.intLit 7)], [.const (.intLit (-1))]] := by
+  decide
+
+/-- **Why the key must be the constant itself** (negation witness for a key that matches value arguments "by value"
+    through `to_uint64`): `Constant::to_uint64` — its arms are the extracted `Gen.PosTable.toUint64Table` — is `None` for
+    every negative constant (and every enum), so such a comparison identifies `-1` with `-2`: the second of
+    `tf<-1>(); tf<-2>()` is bound to the instantiation whose parameter is `-1`; it also binds `tf<3u>()` after `tf<3>()`
+    to the instantiation typed by the untyped literal. -/
+theorem to_uint64_key_identifies_negative_arguments :
+    sameKey .byToUint64 [.const (.intLit (-1))] [.const (.intLit (-2))] = true ∧
+    sameKey .byToUint64 [.const (.int32 (-1))] [.const (.int32 (-2147483648))] = true ∧
+    sameKey .byToUint64 [.const (.intLit 3)] [.const (.uint32 3)] = true ∧
+    sameKey .byToUint64 [.const (.enum 0 (.int32 1))] [.const (.enum 0 (.int32 5))] = true ∧
+    run .byToUint64 (fun _ k => k) [] [(0, [.const (.intLit (-1))]), (0, [.const (.intLit (-2))])] =
+      [[.const (.intLit (-1))], [.const (.intLit (-1))]] ∧
+    run fnKeyMode (fun _ k => k) [] [(0, [.const (.intLit (-1))]), (0, [.const (.intLit (-2))])] =
+      [[.const (.intLit (-1))], [.const (.intLit (-2))]] := by
+  decide
+
+end Instantiation
 
 end RsslVerif.Thm.C13
